@@ -139,8 +139,12 @@ Inductive decl :=
 Record file := { f_name : string; f_decls : list decl }.
 
 (* p_files is in pkg.Syntax order (go list: sorted by file name); p_dest holds
-   the package-level type specs of the destination package of `shoot map` *)
-Record pkg := { p_files : list file; p_dest : list tspec }.
+   the package-level type specs of the destination package of `shoot map`;
+   p_others are the names (relative to the package directory, possibly with a
+   path component) of existing .go files that packages.Load does NOT make part
+   of the package: _test.go files (Tests: false), files excluded by a build
+   constraint, files starting with `_` or `.`, files of sub-directories *)
+Record pkg := { p_files : list file; p_dest : list tspec; p_others : list string }.
 
 Definition is_struct (t : tspec) : bool := match ts_rhs t with RStruct => true | _ => false end.
 Definition is_rest_iface (t : tspec) : bool := match ts_rhs t with RIface true => true | _ => false end.
@@ -156,10 +160,13 @@ Definition local_decl (d : decl) : list tspec := match d with DFunc l => l | _ =
 Definition local_specs (p : pkg) : list tspec :=
   flat_map (fun f => flat_map local_decl (f_decls f)) (p_files p).
 
+(* the names of a const spec that makeStr records: `_` is skipped *)
+Definition real_names (names : list string) : list string := filter (fun n => negb (n =? "_")) names.
+
 (* number of constants declared with type identifier T, over all files *)
 Definition consts_decl (T : string) (d : decl) : nat :=
   match d with
-  | DConst ty names => if ty =? T then List.length names else 0
+  | DConst ty names => if ty =? T then List.length (real_names names) else 0
   | _ => 0
   end.
 Definition consts_of (p : pkg) (T : string) : nat :=
@@ -315,8 +322,22 @@ Definition parse_common (c : subcmd) (args : list string) : pres :=
 (* ------------------------------------------------- all-in-one file lookup *)
 
 (* findCmdLine: regexp (?m)^//go:generate.*<QuoteMeta cmdline>$ on one // comment *)
-Definition find_cmd_line (text cmdline : string) : bool :=
-  has_prefix "//go:generate" text && ends_with cmdline (drop 13 text).
+Definition line_matches (cmdline line : string) : bool :=
+  has_prefix "//go:generate" line && ends_with cmdline (drop 13 line).
+
+(* strings.Split(s, "\n") *)
+Fixpoint lines_aux (s cur : string) : list string :=
+  match s with
+  | EmptyString => [cur]
+  | String c s' =>
+      if Ascii.eqb c (ascii_of_nat 10) then cur :: lines_aux s' EmptyString
+      else lines_aux s' (cur ++ String c EmptyString)
+  end.
+Definition lines (s : string) : list string := lines_aux s EmptyString.
+
+(* a // comment is one line; a block comment is one *ast.Comment whose text spans
+   several lines, and the (?m) flag lets ^ and $ match at every line of it *)
+Definition find_cmd_line (text cmdline : string) : bool := existsb (line_matches cmdline) (lines text).
 
 Definition file_has_cmdline (cmdline : string) (f : file) : bool :=
   existsb (fun d => match d with DComment t => find_cmd_line t cmdline | _ => false end) (f_decls f).
@@ -451,10 +472,10 @@ Fixpoint enum_walk (p : pkg) (sp : bool) (T : string) (ds : list decl) (n : nat)
   | DFunc _ :: ds' => enum_walk p sp T ds' n                  (* function bodies are not entered *)
   | DConst ty names :: ds' =>
       if negb (ty =? T) then enum_walk p sp T ds' n
-      else match names with
+      else match real_names names with
            | [] => enum_walk p sp T ds' n
-           | _ => if type_is_int p T then enum_walk p sp T ds' (n + List.length names)
-                  else MFatal DgNonIntConst
+           | ns => if type_is_int p T then enum_walk p sp T ds' (n + List.length ns)
+                   else MFatal DgNonIntConst
            end
   | DComment _ :: ds' => enum_walk p sp T ds' n
   end.
@@ -514,6 +535,14 @@ Fixpoint gen_loop (c : subcmd) (p : pkg) (fl : cflags) (aio : string) (fmap : li
       end
   end.
 
+(* cmd/shoot/main.go: `for fname, src := range srcMap { notedownSrc(dir, fname, src); fileNames = append(fileNames, fname) }`
+   and, afterwards, the message printing fileNames.  l = srcMap in the order Go happens to iterate it. *)
+Fixpoint main_loop (l : srcmap) (written : srcmap) (names : list string) : outcome :=
+  match l with
+  | [] => Done written names
+  | (n, ts) :: l' => main_loop l' (written ++ [(n, ts)])%list (names ++ [n])%list
+  end.
+
 (* LoadPackage .. Generate .. the success message, for flags that passed ParseCommonFlags *)
 Definition run_loaded (o : oracle) (c : subcmd) (fl : cflags) (p : pkg) : outcome :=
   let aio := all_in_one_file fl p in
@@ -534,17 +563,17 @@ Definition run_loaded (o : oracle) (c : subcmd) (fl : cflags) (p : pkg) : outcom
                         | [] => files
                         | _ => (files ++ [(file_name c fl aio fmap "", merged)])%list
                         end in
-          Done files' (o _ (map fst files'))
+          main_loop (o _ files') [] []
       end
   end.
 
 (* the two checks of ParseCommonFlags on -file: filepath.Ext(file) == ".go" and
-   os.Stat(dir/file).  In the grammar the .go files of the directory are the
-   files of the package, so "exists" is membership in p_files. *)
+   os.Stat(dir/file): the file exists when it is a file of the package or one
+   of the other .go files below the directory (p_others). *)
 Definition check_file_arg (fl : cflags) (p : pkg) : option diag :=
   if fl_file fl =? "" then None
   else if negb (ends_with ".go" (fl_file fl)) then Some DgFileNotGo
-  else if negb (mem (fl_file fl) (map f_name (p_files p))) then Some DgFileNotExists
+  else if negb (mem (fl_file fl) (map f_name (p_files p) ++ p_others p)%list) then Some DgFileNotExists
   else None.
 
 Definition run (o : oracle) (c : subcmd) (fl : cflags) (p : pkg) : outcome :=
@@ -557,11 +586,14 @@ Definition run (o : oracle) (c : subcmd) (fl : cflags) (p : pkg) : outcome :=
 Inductive cli_out :=
 | CUsage2                 (* usage text, exit 2, nothing written *)
 | CHelp0                  (* -h: usage text, exit 0, nothing written *)
+| CNotModelled            (* `shoot map -to=...`: the destination type renaming is outside this model *)
 | COut (r : outcome).
 
 Definition shoot_cli (o : oracle) (c : subcmd) (args : list string) (p : pkg) : cli_out :=
   match parse_common c args with
   | PUsage2 => CUsage2
   | PExit0 => CHelp0
-  | POk fl _ => COut (run o c fl p)
+  | POk fl vals =>
+      if subcmd_eqb c CMap && negb (flag_val "to" vals "" =? "") then CNotModelled
+      else COut (run o c fl p)
   end.
